@@ -22,7 +22,7 @@ ROOTS = ["detach", "start", "startp", "claimed", "join", "fctor", "retfut"]
 KINDS = ["co", "da", "dd", "st", "fc", "rf", "pa", "pd"]
 DRIVER = ["Setup", "Create", "RootStart", "DropObj", "Resolve", "Finish"]
 INTERNAL = ["BodyBegin", "AwaitExt", "SpawnCreate", "Launch", "StartReturn", "AwaitLoc", "Observe", "QueuedResume",
-            "BodyEnd", "FinalResolve", "FinalDestroy", "FinalTransfer", "Flush", "IqExit", "JoinStep"]
+            "BodyEnd", "FinalResolve", "FinalDestroy", "FinalTransfer", "Flush", "IqExit", "JoinStep", "RootSubscribe"]
 MERGE_RE = r"^(?!(%s)$)" % "|".join(DRIVER)
 TLC_WORKERS = 4
 RET, THR = ("ret", 0), ("thr", 0)
@@ -167,6 +167,7 @@ def make_proj(ps):
             "P": texts[i],
             "blocked": st["pend"] == "blocked",
             "c": cl,
+            "cb": st["cb"],
             "chk": "ok",
             "ev": st["ev"],
             "ext": [e["st"] for e in st["ext"]],
@@ -203,6 +204,8 @@ def run(ctx):
             must = [a for a in must if a not in ("StartReturn", "AwaitLoc", "QueuedResume", "Flush")]
         if not any(p["root"] == "join" for p in ps):
             must = [a for a in must if a != "JoinStep"]
+        if not any(p["root"] not in ("join", "detach", "claimed") for p in ps):
+            must = [a for a in must if a != "RootSubscribe"]
         res, g = graph_replay(ctx, "Async", "Async", "Async_base.cfg", tag, rp, make_proj(ps), header_fn=hdr,
                               merge_re=MERGE_RE, must_take=must, defs={"Programs": tla_programs(ps)},
                               extra_random=100 if ctx.quick else 1000, tlc_kw={"workers": TLC_WORKERS})
